@@ -20,6 +20,10 @@ REPO = os.environ.get('VERIF_REPO', '/repo')
 VERIF = os.path.dirname(os.path.dirname(os.path.abspath(__file__)))
 
 # [Cxx.name] or [Cxx.name|Cyy|Czz]: the obligation also counts for properties Cyy, Czz
+# proof-mode attributes a sidecar may put in front of an extracted fn (`@attr <<...>>`).  They change how Verus
+# searches for the proof (which facts are in scope), never what is assumed.
+ALLOWED_FN_ATTRS = ('#[verifier::loop_isolation(false)]', '#[verifier::spinoff_prover]')
+
 LABEL_RE = re.compile(r'\[((?:C\d\d|[a-z]+)\.[A-Za-z0-9_.\-]+)((?:\|C\d\d)*)\]')
 
 
@@ -114,24 +118,26 @@ def parse_vspec(path):
                 else:
                     raise SpecError(f'{path}:{i+1}: bad token {rest[k]}')
             u.parts.append(('item', it)); cur_item = it; i += 1
-        elif d in ('@sig', '@loop', '@loopend', '@before', '@after', '@closure', '@closure?', '@ret', '@tail', '@head', '@drop', '@split_or_arm', '@idiom', '@dropstmt', '@relift'):
+        elif d in ('@sig', '@loop', '@loopend', '@before', '@after', '@closure', '@closure?', '@ret', '@tail', '@head', '@drop', '@split_or_arm', '@idiom', '@dropstmt', '@relift', '@tryforeach', '@attr'):
             if cur_item is None: raise SpecError(f'{path}:{i+1}: {d} outside @item')
             a = Ann(kind=d[1:].rstrip('?'), line=i + 1)
             if d.endswith('?'): a.opts['optional'] = '1'   # anchor may be absent (code before/after a fix)
             rest = ln[len(d):].strip()
             if d == '@ret':
                 a.arg = rest; i += 1
-            elif d in ('@loop', '@loopend'):
+            elif d in ('@loop', '@loopend', '@tryforeach'):
                 ps = rest.split()
                 a.arg = ps[0]
                 for p in ps[1:]:
                     kk, vv = p.split('='); a.opts[kk] = vv
                 a.text, i = take_block(i + 1)
-            elif d in ('@before', '@after', '@drop', '@dropstmt', '@split_or_arm'):
+            elif d in ('@before', '@after', '@drop', '@dropstmt', '@split_or_arm', '@attr'):
                 m = re.match(r'<<(.*)>>\s*$', rest)
                 if not m: raise SpecError(f'{path}:{i+1}: {d} needs <<anchor>>')
                 a.arg = m.group(1)
-                if d in ('@drop', '@dropstmt', '@split_or_arm'):
+                if d == '@attr' and a.arg not in ALLOWED_FN_ATTRS:
+                    raise SpecError(f'{path}:{i+1}: @attr {a.arg} is not a whitelisted proof-mode attribute')
+                if d in ('@drop', '@dropstmt', '@split_or_arm', '@attr'):
                     i += 1
                 else:
                     a.text, i = take_block(i + 1)
@@ -293,13 +299,13 @@ class Text:
         return ''.join(out)
 
 
-def strip_common(tx: Text, keep_derive=True, extra_keep=(), drop_derive=()):
+def strip_common(tx: Text, keep_derive=True, extra_keep=(), drop_derive=(), keep_vis=False):
     """R1/R2 on the item text."""
     ct = tx.ct
     i = 0
     while i < len(ct):
         t = ct[i]
-        if t.kind == 'id' and t.text == 'pub':
+        if t.kind == 'id' and t.text == 'pub' and not keep_vis:
             e = t.end
             if i + 1 < len(ct) and ct[i + 1].text == '(' and ct[i + 2].kind == 'id' and ct[i + 2].text in ('crate', 'super', 'in', 'self'):
                 e = ct[rl.match_close(ct, i + 1)].end
@@ -593,7 +599,8 @@ class Gen:
             return self.emit_lift(it)
         item, imp, src = find_item(it.file, it.kind, it.sel)
         tx = Text(src, item.start, item.end, it.file)
-        strip_common(tx, extra_keep=tuple(it.opts.get('keep', '').split(',')), drop_derive=tuple(it.opts.get('noderive', '').split(',')))
+        strip_common(tx, extra_keep=tuple(it.opts.get('keep', '').split(',')), drop_derive=tuple(it.opts.get('noderive', '').split(',')),
+                     keep_vis=(it.opts.get('vis') == 'keep'))
         # per-item renames: `ren=Old:New[,Old2:New2]` on the @item line (R7; for names that mean different
         # things in different source files, e.g. rt::Config vs config::Config both written `Config`)
         item_ren = [tuple(x.split(':', 1)) for x in it.opts.get('ren', '').split(',') if ':' in x]
@@ -689,9 +696,13 @@ class Gen:
                         if ct[j].text in ('(', '['): j = rl.match_close(ct, j)
                         j += 1
                     pat = src[ct[kw + 1].start:ct[j - 1].end]
-                    if not (ct[j + 1].text == '&' and ct[j + 2].text == 'mut'):
-                        raise SpecError(f'LOST-ANCHOR: {region}: loop {n} is not `for PAT in &mut EXPR`')
-                    expr = src[ct[j + 3].start:ct[ob - 1].end]
+                    if ct[ob - 1].text == ')' and ct[ob - 2].text == '(' and ct[ob - 3].text == 'iter_mut' and ct[ob - 4].text == '.':
+                        # `for PAT in EXPR.iter_mut()`: the same iterator as `&mut EXPR` (IntoIterator for &mut IndexMap is iter_mut)
+                        expr = src[ct[j + 1].start:ct[ob - 5].end]
+                    elif ct[j + 1].text == '&' and ct[j + 2].text == 'mut':
+                        expr = src[ct[j + 3].start:ct[ob - 1].end]
+                    else:
+                        raise SpecError(f'LOST-ANCHOR: {region}: loop {n} is not `for PAT in &mut EXPR` / `for PAT in EXPR.iter_mut()`')
                     iv = a.opts.get('var', '__i')
                     tx.edit(ct[kw].start, ct[ob].start,
                             f'{{ let mut {iv}: usize = 0; while {iv} < {expr}.len()', 'R10', 'for-in-&mut-IndexMap desugared to index loop')
@@ -734,6 +745,10 @@ class Gen:
                         j += 1
                     pat = src[ct[kw + 1].start:ct[j - 1].end]
                     expr = src[ct[j + 1].start:ct[ob - 1].end]
+                    if a.opts.get('into_iter'):
+                        # EXPR is an IntoIterator that is not itself an Iterator (e.g. a Vec): the Reference's desugaring
+                        # calls IntoIterator::into_iter(EXPR) first
+                        expr = f'({expr}).into_iter()'
                     iv = a.opts.get('var', '__it')
                     close = rl.match_close(ct, ob)
                     tx.edit(ct[kw].start, ct[ob].start, f'{{ let mut {iv} = {expr}; loop', 'R12', 'for desugared to loop/match next()')
@@ -757,6 +772,51 @@ class Gen:
                     raise SpecError(f'LOST-ANCHOR: {region}: loop {n} not found ({len(loops)} loops)')
                 kw, ob = loops[n - 1]
                 pending_inserts.append((ct[rl.match_close(ct, ob)].start, '\n' + a.text.rstrip() + '\n', 'loopend'))
+            elif a.kind == 'tryforeach':
+                # R17: `RECV.try_for_each(|PAT| BODY)` (closure result type Result<(), E>)  ==>
+                #     { let mut __r = Ok(()); for PAT in [binder:] RECV INV { [HINTS] match (BODY) { Ok(()) => {}, Err(__e) => { __r = Err(__e); break; } } } __r }
+                # This is std's definition of Iterator::try_for_each for R = Result<(), E>: the closure is called on the
+                # items in order, the first Err stops the iteration and is returned, else Ok(()).  Needed because the
+                # closure mutates captured state (`world`), which Verus closures cannot do.
+                n = int(a.arg)
+                hits = [k for k in range(fp['bopen'] + 1, fp['bclose'])
+                        if ct[k].kind == 'id' and ct[k].text == 'try_for_each' and ct[k - 1].text == '.' and ct[k + 1].text == '(']
+                if n < 1 or n > len(hits):
+                    raise SpecError(f'LOST-ANCHOR: {region}: try_for_each {n} not found ({len(hits)} calls)')
+                k = hits[n - 1]
+                popen = k + 1
+                pclose = rl.match_close(ct, popen)
+                if ct[popen + 1].text != '|':
+                    raise SpecError(f'LOST-ANCHOR: {region}: try_for_each {n}: argument is not a closure literal')
+                j = popen + 2
+                while ct[j].text != '|': j += 1
+                pat = src[ct[popen + 2].start:ct[j - 1].end]
+                if ct[pclose - 1].text == ',':
+                    raise SpecError(f'LOST-ANCHOR: {region}: try_for_each {n}: trailing comma in argument list')
+                # receiver start: walk back over the postfix chain to the nearest expression boundary at depth 0
+                opens = {}
+                stack = []
+                for q in range(fp['bopen'], fp['bclose'] + 1):
+                    if ct[q].kind == 'punct' and ct[q].text in ('(', '[', '{'): stack.append(q)
+                    elif ct[q].kind == 'punct' and ct[q].text in (')', ']', '}'):
+                        if stack: opens[q] = stack.pop()
+                b = k - 2
+                while True:
+                    tb = ct[b]
+                    if tb.kind == 'punct' and tb.text in (')', ']', '}'):
+                        b = opens[b] - 1; continue
+                    if (tb.kind == 'punct' and tb.text in (';', '{', '(', '[', ',', '=')) or (tb.kind == 'id' and tb.text in ('return', 'in', 'break')):
+                        break
+                    if tb.kind == 'punct' and tb.text == '>' and ct[b - 1].text == '=' and ct[b - 1].end == tb.start:
+                        break
+                    b -= 1
+                rstart = b + 1
+                binder = (a.opts['binder'] + ': ') if 'binder' in a.opts else ''
+                pending_inserts.append((ct[rstart].start, f'{{ let mut __r = Ok(()); for {pat} in {binder}', 'R17'))
+                tx.edit(ct[k - 1].start, ct[j].end, '', 'R17', 'try_for_each(|PAT| BODY) desugared to for/match/break (std definition for Result<(), E>)')
+                inv, _, hints = a.text.partition('--body--')   # optional proof hints for the start of the loop body
+                pending_inserts.append((ct[j].end, '\n' + inv.rstrip() + '\n{ ' + hints.strip() + ' match (', 'loop'))
+                tx.edit(ct[pclose].start, ct[pclose].end, ') { Ok(()) => {}, Err(__e) => { __r = Err(__e); break; } } } __r }', 'R17', 'end of desugared try_for_each')
             elif a.kind in ('before', 'after'):
                 body_s, body_e = ct[fp['bopen']].end, ct[fp['bclose']].start
                 body = src[body_s:body_e]
@@ -783,7 +843,9 @@ class Gen:
                 nth = int(a.opts.get('nth', '0'))
                 if (nth == 0 and cnt != 1) or nth > cnt:
                     raise SpecError(f'LOST-ANCHOR: {region}: closure header <<{a.arg}>> occurs {cnt} times')
-                if not re.match(r'^(move\s+)?\|[^|]*\|$', a.arg.strip()) or not re.match(r'^(move\s+)?\|', a.arg2.strip()):
+                # the anchor may carry a disambiguating prefix (`.ok_or_else(||`), which the replacement must repeat verbatim
+                mpre = re.match(r'^(.*?)((?:move\s+)?\|[^|]*\|)$', a.arg.strip(), flags=re.S)
+                if not mpre or not a.arg2.strip().startswith(mpre.group(1)) or not re.match(r'^(move\s+)?\|', a.arg2.strip()[len(mpre.group(1)):]):
                     raise SpecError(f'{region}: @closure must rewrite a closure header only')
                 if a.text and not re.match(r'^let [^;]*;$', a.text.strip()):
                     raise SpecError(f'{region}: @closure third part must be a single `let PAT = x;`')
@@ -805,6 +867,11 @@ class Gen:
                     pending_inserts.append((bp, btxt, 'closure-brace'))
             elif a.kind == 'drop':
                 self.apply_drop(tx, a, fp['bopen'], fp['bclose'])
+            elif a.kind == 'attr':
+                q = fp['fn']
+                while q > 0 and ct[q - 1].kind == 'id' and ct[q - 1].text in ('async', 'const', 'unsafe'):
+                    q -= 1
+                pending_inserts.append((ct[q].start, a.arg + '\n    ', 'attr'))
             elif a.kind == 'dropstmt':
                 self.apply_dropstmt(tx, a, region)
             elif a.kind == 'idiom':
